@@ -33,7 +33,9 @@ EXPLANATION = (
     "optional members by presence (not truthiness), defaults, and exactly "
     "one of each alternative set. R12.5: every shipped file writing bare "
     "numbers declares that kind in its units block with a unit of the "
-    "kind's dimension.")
+    "kind's dimension. D12.8: every value with a unit has the dimension of "
+    "its kind, every member name of a record is one the schema declares, "
+    "and every quantity text is one number followed by a unit.")
 NOT_DECIDED = ("numeric equality across unit presentations (floating "
                "point); PyYAML's scalar resolution")
 ASSUMPTIONS = ["GAS_CONSTANT is evaluated by the unit evaluator decided in "
